@@ -459,14 +459,18 @@ func RunProto(cfg Config, res *core.Result) error {
 			h uint64
 			l []byte
 		}
-		hs := make([]hl, len(lines))
-		for i, l := range lines {
+		allHonest, rest := splitHonest(lines)
+		hs := make([]hl, len(rest))
+		for i, l := range rest {
 			hs[i] = hl{core.Hash64(fmt.Sprint(cfg.Seed), string(l)), l}
 		}
 		sort.Slice(hs, func(a, b int) bool { return hs[a].h < hs[b].h })
 		res.AddExtra("behaviours_generated", len(lines))
-		lines = lines[:0]
-		for _, x := range hs[:cfg.Max] {
+		lines = append([][]byte(nil), allHonest...)
+		for _, x := range hs {
+			if len(lines) >= cfg.Max {
+				break
+			}
 			lines = append(lines, x.l)
 		}
 	}
